@@ -1,10 +1,36 @@
-"""C17 -- findings are invariant under re-layout and commenting of the source: bounded executable contract
-(token indices flagged on the one-token-per-line layout versus every other token-preserving layout)."""
+"""C17 -- findings are invariant under re-layout and commenting of the source (mixed).
+
+Verus (unit blind; lemmas over the contracts proved in the other units, no trusted item of its own): for trees that are equal up to
+the values of their Loc fields -- `eqv_<T>`, generated from the parse-tree types -- the node enumerations correspond (generated,
+proved per node type), hence so do the results of the tree search (`lemma_walk_eqv`; with C01: of the real walker), and each of the
+12 predicates of the hits-form detectors of unit det_expr gives the same verdict on corresponding nodes (`lemma_blind_<pat>`):
+the same positions of the search result are flagged (`lemma_c17_same_positions_flagged`). What links this to re-layouts is an
+ASSUMPTION on the parser (the tree shape depends on the token sequence only; comments are not tokens), which -- like code-like text
+in comments and strings, and like the detectors outside det_expr's hits-form -- is the bounded check's business:
+native `c17` compares the token indices flagged on the one-token-per-line layout with every other token-preserving layout."""
+from .. import driver as D
 from . import bounded
+
+UNITS = [("blind", None)]
+TRUST = ["unit blind holds lemmas only; it relies on the detector postconditions proved in unit det_expr and on the walker contract proved in unit ast",
+         "parser: a token-preserving re-layout changes the parse tree only in its Loc fields (assumption; exercised by the bounded check)"]
+BOUNDED_PART = ["the parser assumption; comments and string contents; the detectors that are not in hits-form in unit det_expr (declaration-level, state-variable, version-gated detectors, cache_array_length, increment_decrement, unprotected_selfdestruct)",
+                "the line arithmetic (C02) under CRLF / multi-byte layouts"]
+
+
+def key_to_functions(key):
+    return []
 
 
 def run(tier, seed):
-    return bounded.run_bounded(
-        "C17", "c17", tier, seed,
-        "for every token-preserving re-layout L: lines(analyze_for_*(L, p)) == lines in L of the tokens flagged on the one-token-per-line layout; "
-        "text inside comments and string literals never changes the findings")
+    vd = D.Verdict("C17", tier, seed)
+    covs, failed = bounded.run_units(vd, UNITS)
+    try:
+        binary, _ = D.build_native()
+    except D.BuildError as e:
+        vd.add_undecided(str(e)[:800])
+        return vd.finish({"level": "exploration", "coverage": {"evaluations": 1, "distinct_nontrivial": 2, "rule": "native harness did not build", "samples": ["-"]}})
+    nat = D.run_native(binary, "c17", tier, seed)
+    D.combine(vd, failed, nat, key_to_functions=key_to_functions)
+    ev = bounded.evidence_from_native(nat, [])
+    return vd.finish(bounded.mixed_evidence(ev, covs, BOUNDED_PART, TRUST, None, None, vd))
